@@ -163,20 +163,35 @@ def _shape_term(ctx, t):
     if k == "num":
         return True
     if k == "field":
-        return t[2] in ("rows", "cols") and t[1][0] == "param"
+        return t[2] in ("rows", "cols", "n", "m1", "m2") and t[1][0] == "param"
     if k == "len":
         return True
     if k == "param":
         b = [b_ for b_ in ctx.binds.values() if b_.kind == "param" and b_.idx == t[1]]
         return bool(b) and base_ty(b[0].ty) in ("usize", "isize", "u32", "i32", "u64", "i64")
-    if k in ("op", "lin"):
+    if k == "var":
+        b = ctx.binds.get(t[1])
+        return b is not None and base_ty(getattr(b, "ty", None) or "") in ("usize", "isize", "u32", "i32", "u64", "i64")      # a loop index / integer local
+    if k == "lin":
+        return all(_shape_term(ctx, x[0]) for x in t[2])
+    if k == "op":
         return all(_shape_term(ctx, x) for x in t[1:] if isinstance(x, tuple))
     if k == "call" and str(t[1]).rsplit("::", 1)[-1] in ("rows", "cols", "size", "len"):
         return True
     return False
 
 
-def rule_rejects_only_shapes(rep, pdb, fns):
+def _elementary(ctx, t):
+    """arithmetic over elements, locals and literals only: no call of a function of the crate (a determinant, a norm, an estimate ..)"""
+    if not isinstance(t, tuple) or not t:
+        return True
+    if t[0] == "call":
+        if ctx.pdb.fn(str(t[1])) is not None or "::" in str(t[1]) and not str(t[1]).startswith(("f64::", "std::", "core::", "traits::")):
+            return False
+    return all(_elementary(ctx, x) for x in t[1:] if isinstance(x, tuple))
+
+
+def rule_rejects_only_shapes(rep, pdb, fns, floor=2):
     """The solvers give an answer for EVERY nonsingular system: a panic of their own may depend on the shapes of the arguments only."""
     rule = ("every panic raised by the direct solvers and their helpers is guarded by comparisons of shapes (rows, cols, lengths) only: a guard that looks at element "
             "values - a determinant, a norm, a condition estimate, a pivot threshold - rejects systems the property quantifies over (e.g. a nonsingular system whose "
@@ -198,8 +213,8 @@ def rule_rejects_only_shapes(rep, pdb, fns):
                         v = a[3] if is_zero_term(a[2]) else a[2]
                         while v[0] == "call" and str(v[1]).rsplit("::", 1)[-1] == "abs" and len(v) == 3:
                             v = v[2]
-                        if v[0] == "idx":
-                            return True     # an exactly-zero matrix element (a zero pivot after the search): the system is singular
+                        if v[0] in ("idx", "var") or _elementary(ctx, v):
+                            return True     # an exactly-zero matrix element / pivot (local, or its defining arithmetic) of the elimination itself: the system is singular
                     return _shape_term(ctx, a[2]) and _shape_term(ctx, a[3])
                 if a[0] == "or":
                     return all(atom_ok(x) for alt in a[1] for x in alt)
@@ -209,7 +224,7 @@ def rule_rejects_only_shapes(rep, pdb, fns):
             n += 1
             rep.add("rejects-only-shapes/%s#%d" % (f.get("name"), k_), rule, not bad, node,
                     "guards: %d, about values: %s" % (len(fs), [show(a[2], ctx) + " " + str(a[1]) + " " + show(a[3], ctx) if a[0] in ("cmp", "ncmp") else str(a[0]) for a in bad][:3]))
-    rep.floor("rejects-only-shapes/", 2)
+    rep.floor("rejects-only-shapes/", floor)
 
 
 def run(rep, pdb, tier):
@@ -383,7 +398,7 @@ def run(rep, pdb, tier):
             o = for_range(ctx, fw.loops[0])
             inn = for_range(ctx, fw.loops[1]) if len(fw.loops) > 1 else None
             i_, k_ = o[0], inn[0] if inn else None
-            okf = fw.target == x and fw.index == i_ and o[1] == num(0) and o[2] == ROWS and not o[4] and inn is not None and inn[1] == num(0) and inn[2] == i_ and not inn[3] and \
+            okf = fw.target == x and fw.index == i_ and o[1] in (num(0), num(1)) and o[2] == ROWS and not o[4] and inn is not None and inn[1] == num(0) and inn[2] == i_ and not inn[3] and \
                 fw.value == ("op", "*", ("idx", P(0), ("tup", i_, k_)), ("idx", x, k_))
             rep.add("sweep-order/solve_lu", "forward sweep: outer index ascending over 0..rows, inner range 0..i (finalised entries only, diagonal excluded: unit lower triangle)", okf, fw.node,
                     "x[i] -= a_ik * x[k], i in 0..rows, k in 0..i: %s" % okf)
